@@ -268,8 +268,20 @@ def argv_strategy(draw, big=False):
     cand = [s for s in slots]
     if level != 'valid' and cand:
         k = 1 if level == 'one' else draw(st.integers(2, 4))
+        # the option is drawn first (uniformly over the distinct option names present), then one of its value slots:
+        # rarely used options get the same share of hostile values as the many coordinates of the wires
+        groups = {}
+        for name_, flds_ in opts:
+            for f_ in flds_:
+                if any(f_ is c_ for c_ in cand):
+                    groups.setdefault(name_, []).append(f_)
+        names_ = sorted(groups)
         for _ in range(k):
-            s = cand[draw(st.integers(0, len(cand) - 1))]
+            if names_ and draw(st.integers(0, 3)) > 0:
+                g_ = groups[names_[draw(st.integers(0, len(names_) - 1))]]
+                s = g_[draw(st.integers(0, len(g_) - 1))]
+            else:
+                s = cand[draw(st.integers(0, len(cand) - 1))]
             s[0] = draw(st.sampled_from(HOSTILE_INT if s[1] == 'i' else HOSTILE_CPLX if s[1] == 'c' else HOSTILE_PULSE if s[1] == 'p' else HOSTILE_COUNT if s[1] == 'n' else HOSTILE_NUM))
             hostile += 1
     arity = 0
